@@ -5,14 +5,20 @@ P = {
                   '(parent base fee, stored gas figure g, target T = gas limit / elasticity, denominator, integer part of the minimum gas '
                   'price) for every parameter set, height and gas limit (configured, unlimited = MaxUint64, absent); increase >= 1; never '
                   'below the minimum in the decrease branch; unchanged at target; monotone in g when min <= base (refuted otherwise: K2); '
-                  'base >= min is invariant over all block sequences; the gas figure is exactly max(floor(wanted x multiplier), used). '
-                  'The Gallina model is compared with the real keeper (CalculateBaseFee, BeginBlock, EndBlock) on generated cases on every run',
+                  'base >= min is invariant over all block sequences; the gas figure is exactly max(floor(wanted x multiplier), used); '
+                  'for ALL lists of delivered transactions the declared gas the ante decorator accumulates is the plain sum of the gas limits of '
+                  'the transactions that passed the ante handler (no cap; uint64 wrap only above 2^64, refuted beyond), the stored figure is '
+                  'max(floor(sum x multiplier), used), monotone in every declared gas limit, and a block with sum x multiplier > T raises the '
+                  'next base fee by >= 1 (a running total capped at the block gas limit is refuted: 5 x 8e6 under 20e6). '
+                  'The Gallina model is compared with the real keeper (CalculateBaseFee, BeginBlock, EndBlock) and with real blocks of signed '
+                  'transactions delivered through BaseApp under a finite consensus MaxGas on generated cases on every run',
     'level_note': 'trusted: Coq kernel + vm_compute; the hand-written model of eip1559.go / abci.go and of cosmossdk.io/math LegacyDec '
                   '(both tied to the real code only by the sampled correspondence run, declib driver included); params/consensus-params '
-                  'storage, the transient store and the block gas meter are driven, not modelled; no axioms',
+                  'storage, the transient store and the block gas meter are driven (kind "real": produced by the real ante handlers and BaseApp; '
+                  'the model takes per transaction the declared gas, the reported gas used and whether the ante handler passed); no axioms',
     'technique': 'Coq proof (arithmetic over Z, induction over block sequences) + differential correspondence against the real fee market keeper',
     'drivers': [
-        {'name': 'feemarket', 'n': {'quick': 1500, 'thorough': 200000}, 'batch': 20000},
+        {'name': 'feemarket', 'n': {'quick': 2000, 'thorough': 200000}, 'batch': 20000, 'shrink_field': 'blocks'},
         {'name': 'declib', 'n': {'quick': 400, 'thorough': 20000}, 'batch': 20000},
     ],
     'coq_header': 'From HV Require Import Base.Dec Feemarket.BaseFeeModel.\nFrom Coq Require Import ZArith NArith List.\nImport ListNotations.',
@@ -20,25 +26,37 @@ P = {
         'calc': {'type': 'calc_case', 'check': 'calc_mismatches', 'shard': 2500},
         'gas': {'type': 'gas_case', 'check': 'gas_mismatches', 'shard': 5000},
         'seq': {'type': 'seq_case', 'check': 'seq_mismatches', 'shard': 1000},
+        'real': {'type': 'real_case', 'check': 'real_mismatches', 'shard': 400},
         'decops': {'type': 'N * Z * Z * Z', 'check': 'dec_mismatches', 'shard': 5000},
     },
     'search': {'rounds': 3, 'n': 6000},
     'rule': 'feemarket driver, per 20 cases: 14 "calc" (one parameter set — denominator, elasticity, Block.MaxGas incl. -1/0/absent, base fee '
             'up to 2^200, minimum gas price below/at/above the base fee and fractional, enable height — with CalculateBaseFee evaluated at '
             '5-9 stored gas figures: the main one, its neighbours, T-1/T/T+1, 0, random), 4 "gas" (EndBlock for wanted/used/multiplier incl. '
-            'the MaxInt64 guards), 2 "seq" (4-12 blocks BeginBlock+EndBlock); declib: one LegacyDec call each.  non-trivial = the input lies '
+            'the MaxInt64 guards), 1 "seq" (4-12 blocks BeginBlock+EndBlock; 2 in three of four rounds of the thorough tier), 1 "real" (a fresh '
+            'application with consensus Block.MaxGas 2e6..40e6 or -1, MinGasMultiplier 0/0.2/0.5/1/other, elasticity 1-4, denominator, NoBaseFee, '
+            'EnableHeight, MinGasPrice below/at/above the base fee; 2-5 blocks BeginBlock, DeliverTx, EndBlock, Commit of 0-10 signed transactions: '
+            'bank sends with 1-4 messages, Ethereum transfers / gas burning contract calls / several MsgEthereumTx per transaction, declared gas '
+            'totals at floor(total x mult) = T-1/T/T+1, = limit, limit+1.., 2 x limit, up to 7 x limit with every transaction below the limit, gas '
+            'used small or up to the block gas limit, failures in the ante handler — sequence, fee, gas above the limit, out of gas, undecodable — '
+            'and in execution, declared gas 2^63-1 under unlimited block gas; after every block the stored figure and the next base fee against '
+            'the formula evaluated from the delivered transactions); declib: one LegacyDec call each.  non-trivial = the input lies '
             'in the domain of the formula (enabled, base >= 0, elasticity, T, denominator > 0) resp. of the gas rule; distinct = distinct inputs',
     'trusted_base': [
         'Coq 8.16.1 kernel incl. vm_compute (no native_compute)',
         'axioms: none (Print Assumptions: closed under the global context for every theorem of Props/C17.v)',
         'correspondence harness harness/feemarket.go, harness/declib.go + vlib/core.py (generator, oracle)',
         'modelled, not verified: big.Int.Div as Z.div for positive divisors, LegacyDec (Base/Dec.v), uint64 gas figures as Z; '
-        'driven, not modelled: params store, consensus params in the context, transient gas wanted, block gas meter',
+        'driven, not modelled: params store, consensus params in the context, transient gas wanted, block gas meter; in "real" histories '
+        'the ante handlers, BaseApp.runTx and the block gas meter are the real ones, observed per transaction (gas limit, reported gas used, '
+        'sender sequence advanced = ante handler passed)',
     ],
     'assumptions': [
         'guards stated in the theorems: ElasticityMultiplier > 0, target T > 0, BaseFeeChangeDenominator > 0 (the Go code divides by zero '
         'otherwise: out-of-domain observation, compared with the model, not a violation)',
         'monotonicity needs 0 <= base and MinGasPrice.TruncateInt() <= base (known finding K2 otherwise)',
         'the minimum gas price acts through its integer part (TruncateInt): with a fractional minimum the fee can end less than one unit below it',
+        'block theorems: gas limits and gas used >= 0 and the declared gas of the block <= MaxUint64 (the running total is a uint64 addition '
+        'without guard: C17_declared_sum_wrap_refuted; reachable only with unlimited block gas, a transaction may declare at most 2^63-1)',
     ],
 }
